@@ -89,7 +89,14 @@ int cif_packet_create(cif_packet_tp **packet, UChar *names[]) {
                     entry->key_orig = cif_u_strdup(*next);
 
                     if (entry->key_orig == NULL) {
+                        /*
+                         * The packet's entries refer to all the normalized names; have the packet release them,
+                         * exactly once each, along with any original names already copied
+                         */
+                        entry->key_orig = entry->key;
+                        (*packet)->map.is_standalone = 1;
                         cif_packet_free(*packet);
+                        counter = 0;  /* the normalized names have been released with the packet */
                         FAIL(soft, CIF_MEMORY_ERROR);
                     }
                 }
@@ -133,17 +140,19 @@ int cif_packet_create_norm(cif_packet_tp **packet, UChar **names, int avoid_alia
         SET_RESULT(CIF_MEMORY_ERROR);
     } else {
         UChar **name;
+        struct entry_s *scalar = NULL;  /* the entry under construction, until the packet takes ownership of it */
 
         temp_packet->map.normalizer = cif_normalize_item_name;
         temp_packet->map.is_standalone = avoid_aliasing;
         temp_packet->map.head = NULL;
         for (name = names; *name; name += 1) {
-            struct entry_s *scalar = (struct entry_s *) malloc(sizeof(struct entry_s));
+            scalar = (struct entry_s *) malloc(sizeof(struct entry_s));
 
             if (scalar == NULL) {
                 FAIL(soft, CIF_MEMORY_ERROR);
             } else {
                 scalar->as_value.kind = CIF_UNK_KIND;
+                scalar->key = NULL;
                 if (avoid_aliasing == 0) {
                     scalar->key = *name;
                 } else {
@@ -152,6 +161,7 @@ int cif_packet_create_norm(cif_packet_tp **packet, UChar **names, int avoid_alia
                 }
                 scalar->key_orig = scalar->key;
                 HASH_ADD_KEYPTR(hh, temp_packet->map.head, scalar->key, U_BYTES(scalar->key), scalar);
+                scalar = NULL;
             }
         }
 
@@ -160,6 +170,11 @@ int cif_packet_create_norm(cif_packet_tp **packet, UChar **names, int avoid_alia
         return CIF_OK;
 
         FAILURE_HANDLER(soft):
+        if (scalar != NULL) {
+            /* an entry that was not (successfully) added to the packet */
+            if (avoid_aliasing != 0) free(scalar->key);
+            free(scalar);
+        }
         cif_packet_free(temp_packet);
     }
 
